@@ -35,7 +35,7 @@ FUNCS = {
     "speed_test": ("argo", ("lon", "lat", "tinp"), wl.p_speed, True),
     "valid_range_test": ("axds", ("inp",), wl.p_valid_range, True),
 }
-WEIGHTS = {"gross_range_test": 3, "spike_test": 4, "rate_of_change_test": 3, "flat_line_test": 3, "attenuated_signal_test": 3, "climatology_test": 3, "density_inversion_test": 3, "location_test": 2, "pressure_increasing_test": 2, "speed_test": 2, "valid_range_test": 3}
+WEIGHTS = {"gross_range_test": 3, "spike_test": 4, "rate_of_change_test": 3, "flat_line_test": 3, "attenuated_signal_test": 3, "climatology_test": 5, "density_inversion_test": 3, "location_test": 2, "pressure_increasing_test": 2, "speed_test": 2, "valid_range_test": 3}
 
 
 def p_atten_full(rng):
@@ -127,7 +127,7 @@ def gen_params(rng, fn, data):
         a, b = ts[0] + rng.pick((-5, 0, 5)), ts[-1] + rng.pick((-5, 0, 5))
         p["valid_span"] = [wl_iso(min(a, b)), wl_iso(max(a, b))]
         p["dtype"] = "datetime64[ns]"
-    if fn == "climatology_test" and rng.chance(0.5):
+    if fn == "climatology_test" and rng.chance(0.6):
         p["__as_object__"] = True
     if fn == "climatology_test" and rng.chance(0.4):
         # each end point of a date span in its own spelling (all of them parse to the same instant)
